@@ -317,8 +317,8 @@ psf_calc_signal_max (SF_PRIVATE *psf, int normalize)
 	/* Get current position in file (a read/write handle has two) */
 	read_position = psf->read_current ;
 	position = (psf->file.mode == SFM_RDWR) ? psf->write_current : sf_seek ((SNDFILE*) psf, 0, SEEK_CUR) ;
-	/* Go to start of file. */
-	sf_seek ((SNDFILE*) psf, 0, SEEK_SET) ;
+	/* Go to start of file (on a read/write handle: with the read pointer only). */
+	sf_seek ((SNDFILE*) psf, 0, (psf->file.mode == SFM_RDWR) ? (SEEK_SET | SFM_READ) : SEEK_SET) ;
 
 	data = ubuf.dbuf ;
 	/* Make sure len is an integer multiple of the channel count. */
@@ -334,9 +334,7 @@ psf_calc_signal_max (SF_PRIVATE *psf, int normalize)
 
 	/* Return to SNDFILE to original state. */
 	if (psf->file.mode == SFM_RDWR)
-	{	sf_seek ((SNDFILE*) psf, position, SEEK_SET | SFM_WRITE) ;
-		sf_seek ((SNDFILE*) psf, read_position, SEEK_SET | SFM_READ) ;
-		}
+		sf_seek ((SNDFILE*) psf, read_position, SEEK_SET | SFM_READ) ;	/* The write pointer was not moved. */
 	else
 		sf_seek ((SNDFILE*) psf, position, SEEK_SET) ;
 	sf_command ((SNDFILE*) psf, SFC_SET_NORM_DOUBLE, NULL, save_state) ;
@@ -367,7 +365,8 @@ psf_calc_max_all_channels (SF_PRIVATE *psf, double *peaks, int normalize)
 	/* Brute force. Read the whole file and find the biggest sample for each channel. */
 	read_position = psf->read_current ;
 	position = (psf->file.mode == SFM_RDWR) ? psf->write_current : sf_seek ((SNDFILE*) psf, 0, SEEK_CUR) ; /* Get current position in file */
-	sf_seek ((SNDFILE*) psf, 0, SEEK_SET) ;			/* Go to start of file. */
+	/* Go to start of file (on a read/write handle: with the read pointer only). */
+	sf_seek ((SNDFILE*) psf, 0, (psf->file.mode == SFM_RDWR) ? (SEEK_SET | SFM_READ) : SEEK_SET) ;
 
 	len = ARRAY_LEN (ubuf.dbuf) - (ARRAY_LEN (ubuf.dbuf) % psf->sf.channels) ;
 
@@ -385,9 +384,7 @@ psf_calc_max_all_channels (SF_PRIVATE *psf, double *peaks, int normalize)
 		} ;
 
 	if (psf->file.mode == SFM_RDWR)
-	{	sf_seek ((SNDFILE*) psf, position, SEEK_SET | SFM_WRITE) ;
-		sf_seek ((SNDFILE*) psf, read_position, SEEK_SET | SFM_READ) ;
-		}
+		sf_seek ((SNDFILE*) psf, read_position, SEEK_SET | SFM_READ) ;	/* The write pointer was not moved. */
 	else
 		sf_seek ((SNDFILE*) psf, position, SEEK_SET) ;		/* Return to original position. */
 
